@@ -24,7 +24,7 @@ use crate::{
         ed25519::Keypair,
         noise::{self, NoiseSocket},
     },
-    error::{Error, NegotiationError, SubstreamError},
+    error::{NegotiationError, SubstreamError},
     multistream_select::{dialer_select_proto, listener_select_proto, Negotiated, Version},
     protocol::{Direction, Permit, ProtocolCommand, ProtocolSet, SubstreamKeepAlive},
     substream,
@@ -530,7 +530,24 @@ impl TcpConnection {
                 // This permit will be passed on until the substream is reported to the
                 // [`TransportService`](crate::protocol::TransportService), where the connection
                 // will be upgraded and the permit won't be needed anymore.
-                let permit = self.protocol_set.try_get_permit().ok_or(Error::ConnectionClosed)?;
+                let Some(permit) = self.protocol_set.try_get_permit() else {
+                    // Every protocol has released the connection (keep-alive timeout) and the
+                    // connection is about to be closed. An inbound substream arriving at this
+                    // very moment must not end the event loop without reporting the connection
+                    // closed, otherwise protocols and the transport manager regard the peer as
+                    // connected for ever.
+                    tracing::debug!(
+                        target: LOG_TARGET,
+                        peer = ?self.peer,
+                        connection_id = ?self.endpoint.connection_id(),
+                        "inbound substream for a connection released by all protocols, closing connection",
+                    );
+
+                    self.protocol_set
+                        .report_connection_closed(self.peer, self.endpoint.connection_id())
+                        .await?;
+                    return Ok(true);
+                };
                 let open_timeout = self.substream_open_timeout;
 
                 self.pending_substreams.push(Box::pin(async move {
